@@ -514,6 +514,26 @@ func G§(append func(int) int, len int, new, copy string) {
 	x = append(x)
 	_, _, _ = x, new, copy
 }
+func GS§(append func([]int, ...int) []int, new func(int) *int, ns, ms []int) ([]int, int) {
+	ms = append(ns, «i»)
+	ns = append(ns, 1)
+	ns = append(ns, 2)
+	for _, n := range ns {
+		ms = append(ns, n)
+	}
+	return ms, *new(0)
+}
+func LS§(ns, ms []int) ([]int, int) {
+	append := func(s []int, xs ...int) []int { return s }
+	new := func(x int) *int { return &x }
+	ms = append(ns, «i»)
+	ns = append(ns, 1)
+	ns = append(ns, 2)
+	for _, n := range ns {
+		ms = append(ns, n)
+	}
+	return ms, *new(0)
+}
 type H§ struct {
 	append func(...int) []int
 	len    func() int
